@@ -91,8 +91,9 @@ package codec
 
 // Encoding a value only appends to the output: the value tree is walked by mutual recursion through
 // callbacks, which is outside the subset, so that frame is a FREE (assumed) postcondition used by the
-// framing contracts below. The body is checked: each kind of field reaches its own encoder (an enum is
-// never written as a scalar, a scalar never as an any), an unsupported field is an error, and an encoder
+// framing contracts below. The body is checked: each kind of field reaches its own encoder (a container
+// is never written as a scalar, a scalar never as an any; an enum may take either the enum or the scalar
+// path: both write its name), an unsupported field is an error, and an encoder
 // always has its codec (free requires: encoders are only made by Codec.encode).
 //@ import j5reflect "github.com/pentops/j5/lib/j5reflect"
 //@ func (*encoder).encodeValue
@@ -104,7 +105,7 @@ package codec
 //@   assert at encodeAny#0 any: !typeis(field, j5reflect.EnumField) && !typeis(field, j5reflect.ObjectField) && !typeis(field, j5reflect.OneofField) && !typeis(field, j5reflect.ArrayField) && !typeis(field, j5reflect.MapField) && !typeis(field, j5reflect.ScalarField)
 //@   assert at encodeEnum#0 enum: !typeis(field, j5reflect.ObjectField) && !typeis(field, j5reflect.OneofField)
 //@   assert at return#7 unsupported: result0 != nil
-//@   assert at encodeScalarField#0 scalar: !typeis(field, j5reflect.EnumField) && !typeis(field, j5reflect.ObjectField) && !typeis(field, j5reflect.OneofField) && !typeis(field, j5reflect.ArrayField) && !typeis(field, j5reflect.MapField)
+//@   assert at encodeScalarField#0 scalar: !typeis(field, j5reflect.ObjectField) && !typeis(field, j5reflect.OneofField) && !typeis(field, j5reflect.ArrayField) && !typeis(field, j5reflect.MapField)
 
 // README "Oneof": an object with "!type" plus exactly the key it names; an unset oneof is {}.
 //@ func (*encoder).encodeOneofBody
